@@ -1,7 +1,7 @@
 (* Glue lemmas for the C16 statement file (so that C16.v consists of `exact` only). *)
 From Coq Require Import ZArith List Bool Lia.
 From KV.Base Require Import Consts Word.
-From KV.Fec Require Import Gf256 Codec Rs AutoTune Fec FecSpec FecProofs FecProofs2 AutoTuneProofs TuneProofs.
+From KV.Fec Require Import Gf256 Codec Rs AutoTune Fec FecSpec FecProofs FecProofs2 AutoTuneProofs TuneProofs ConvProofs.
 Import ListNotations.
 Local Open Scope Z_scope.
 
@@ -9,9 +9,10 @@ Lemma c16_example_lemma :
   (let t := fold_left (fun t i => at_sample t ((4 + Z.of_nat i) mod 5 <? 3) (4 + Z.of_nat i)) (seq 0 7) at_init in
    at_wf t /\ at_window t = run_pulses 3 2 4 7 /\ find_period t true = 3 /\ find_period t false = 2) /\
   (exists st, dec_new 2 1 = Some st /\ type_mismatch st 2 (sender_flag 3 2 2) = true) /\
-  matching_pkt 3 2 (le32 8 ++ le16 c_typeParity ++ [1; 2; 3]).
+  matching_pkt 3 2 (le32 8 ++ le16 c_typeParity ++ [1; 2; 3]) /\
+  (exists st, dec_new 2 1 = Some st /\ J st /\ Forall (consistent 3 2) (at_window (d_at st))).
 Proof.
-  split; [|split].
+  split; [|split; [|split]].
   - cbv zeta. split.
     + simpl fold_left. repeat apply at_sample_window. apply at_init_wf.
     + split; [vm_compute; reflexivity|]. split; vm_compute; reflexivity.
@@ -19,4 +20,7 @@ Proof.
   - unfold matching_pkt. split; [unfold blen, c_fecHeaderSize, c_mtuLimit; simpl; lia|].
     intros _. split; [|right; vm_compute; reflexivity].
     split; [intros H; vm_compute in H; discriminate|intros H; exfalso; vm_compute in H; discriminate].
+  - eexists. split; [reflexivity|]. split.
+    + unfold J; simpl. repeat split; try lia; try reflexivity. apply at_init_wf.
+    + simpl. constructor.
 Qed.
